@@ -1374,6 +1374,9 @@ def case_msa(rng, ctx):
     k = len(seqs)
     alphabets = [s.get_alphabet() for s in seqs]
     how = str(rng.choice(["default", "default", "default", "distances", "distances_and_tree"]))
+    if kind == "gen_wide" and k > 3 and how == "default":
+        # the library's distance loop is quadratic in the matrix alphabet (seconds for 300 symbols and 8 sequences)
+        how = "distances"
     ali = None
     if how == "default":
         degenerate = degenerate_pairs(seqs, matrix, M, gp, tp)
